@@ -230,3 +230,31 @@ package graphql
 //@   nosafety
 //@   at return: assert calls("handleExtensionsExecutionDidStart") == 0 || calls("executionFinishFn") == 1 || deferred() >= 1
 //@   at call executionFinishFn: assert arg0 != nil
+
+// ---- static / dynamic argument split at plan time (C01, C05, C06) ----------------------
+
+//@ func valueHasVariables
+//@   props C01 C05 C06
+//@   functional
+//@   assigns nothing
+//@   nopanic
+//@   ensures v == nil ==> !result
+//@   ensures typeis(v, "*ast.Variable") ==> result
+//@   ensures typeis(v, "*ast.ListValue") && as(v, "*ast.ListValue") != nil ==> (result <==> exists i in 0..len(as(v, "*ast.ListValue").Values): valueHasVariables_0(as(v, "*ast.ListValue").Values[i]))
+//@   ensures typeis(v, "*ast.ObjectValue") && as(v, "*ast.ObjectValue") != nil ==> (result <==> exists i in 0..len(as(v, "*ast.ObjectValue").Fields): as(v, "*ast.ObjectValue").Fields[i] != nil && valueHasVariables_0(as(v, "*ast.ObjectValue").Fields[i].Value))
+//@   loop 1 invariant forall j in 0..rangeindex+1: !valueHasVariables_0(n.Values[j])
+//@   loop 2 invariant forall j in 0..rangeindex+1: !(n.Fields[j] != nil && valueHasVariables_0(n.Fields[j].Value))
+
+//@ func astHasVariables
+//@   props C01 C05 C06
+//@   functional
+//@   assigns nothing
+//@   nopanic
+//@   ensures result <==> exists i in 0..len(argASTs): argASTs[i] != nil && valueHasVariables_0(argASTs[i].Value)
+//@   loop 1 invariant forall j in 0..rangeindex+1: !(argASTs[j] != nil && valueHasVariables_0(argASTs[j].Value))
+
+//@ func planArguments
+//@   props C01 C05 C06
+//@   nosafety
+//@   ensures result.hasVariables <==> ((len(argDefs) != 0 || len(argASTs) != 0) && astHasVariables_0(argASTs))
+//@   ensures result.hasVariables ==> result.argASTs == argASTs && result.fieldDefArgs == argDefs
